@@ -1628,6 +1628,9 @@ class Interp:
         sv = self.world.as_symseq(self, it)
         if sv is not None:
             it = sv
+        elif is_z3(it) and z3.is_string(it):
+            s_ = it
+            it = SymSeq(z3.Length(s_), lambda i: z3.SubString(s_, i, 1), 'chars')
         h = self.world.loop_hook(self, node, it, env)
         if h is not NotImplementedVal:
             return
